@@ -3,6 +3,7 @@ package bmc
 import (
 	"context"
 	"encoding/hex"
+	"errors"
 	"fmt"
 	"hash"
 	"time"
@@ -14,6 +15,11 @@ import (
 	"github.com/google/gopacket"
 	"github.com/google/gopacket/layers"
 	"github.com/prometheus/client_golang/prometheus"
+)
+
+var (
+	errUnauthenticatedResponse = errors.New(
+		"received unauthenticated response within authenticated session")
 )
 
 // V2Session represents an established IPMI v2.0/RMCP+ session with a BMC.
@@ -202,6 +208,16 @@ func (s *V2Session) buildAndSend(ctx context.Context, c ipmi.Command) error {
 		types := layerexts.DecodedTypes(s.layers)
 		if err := types.InnermostEquals(ipmi.LayerTypeMessage); err != nil {
 			return err
+		}
+		// the session layer only validates the signature of packets claiming
+		// to be authenticated, so we must insist on that claim, and that the
+		// packet is for this session
+		if s.integrityAlgorithm != nil && !s.v2SessionLayer.Authenticated {
+			return errUnauthenticatedResponse
+		}
+		if s.v2SessionLayer.ID != s.LocalID {
+			return fmt.Errorf("response is for session %#x, expected %#x",
+				s.v2SessionLayer.ID, s.LocalID)
 		}
 		code := s.messageLayer.CompletionCode
 		// must increment here, otherwise we'll miss temporary codes at the
